@@ -176,6 +176,11 @@ func (w *world) playReadYourWrites(r *ring.Ring, key uint32, wr, read ring.Repli
 		}
 		return false
 	}
+	// a replica that does not answer either is down or reports that its handling of the request was cancelled
+	var down error = errors.New("replica down")
+	if s.Chance(0.4, "failures-are-cancellations") {
+		down = fmt.Errorf("replica gave up: %w", context.Canceled)
+	}
 	var werr, rerr error
 	var results []string
 	wdone, rdone := false, false
@@ -186,7 +191,7 @@ func (w *world) playReadYourWrites(r *ring.Ring, key uint32, wr, read ring.Repli
 			s.Locked(func() { wcalls++ })
 			s.Park(prefix + "w-" + inst.Id)
 			if !ok(acked, inst.Id) {
-				return errors.New("replica down")
+				return down
 			}
 			s.Locked(func() { stores[inst.Id] = value })
 			return nil
@@ -212,7 +217,7 @@ func (w *world) playReadYourWrites(r *ring.Ring, key uint32, wr, read ring.Repli
 		results, rerr = ring.DoUntilQuorum(context.Background(), read, ring.DoUntilQuorumConfig{}, func(ctx context.Context, inst *ring.InstanceDesc) (string, error) {
 			s.Park(prefix + "r-" + inst.Id)
 			if !ok(answering, inst.Id) {
-				return "", errors.New("replica down")
+				return "", down
 			}
 			var v string
 			s.Locked(func() { v = stores[inst.Id] })
